@@ -141,6 +141,15 @@ func lockAlphabet(slots int) func(m *model.Model) []model.Op {
 				ops = append(ops, model.Op{K: model.OpRemoveEntity, E: al[0]})
 			}
 			ops = append(ops, model.Op{K: model.OpRemoveEntities, F: 0, Fn: true})
+			// batch operations whose filter may match nothing must release their internal lock, too
+			ops = append(ops,
+				model.Op{K: model.OpRemoveEntities, F: 4},
+				model.Op{K: model.OpSetRelBatch, Path: model.PathMapN, F: 4, T: rel(ct.R1, model.ZeroTarget)},
+				model.Op{K: model.OpSetRelBatch, Path: model.PathMap, F: 4, T: rel(ct.R1, model.ZeroTarget), Fn: true},
+				model.Op{K: model.OpRemoveBatch, Path: model.PathMapN, F: 4, Rm: ct.Of(ct.R1)},
+				model.Op{K: model.OpAddBatch, Path: model.PathMapN, F: 4, Cs: ct.Of(ct.T9)},
+				model.Op{K: model.OpNewBatch, Path: model.PathMap, Cs: ct.Of(ct.R1), N: 2, T: rel(ct.R1, model.ZeroTarget), Init: model.InitNil},
+			)
 		}
 		return validOnly(m, ops)
 	}
@@ -148,9 +157,9 @@ func lockAlphabet(slots int) func(m *model.Model) []model.Op {
 
 func init() {
 	Registry["C07"] = func(t Tier) *Check {
-		d := 6
+		d := 5
 		if t == Thorough {
-			d = 7
+			d = 6
 		}
 		u := []ct.Comp{ct.P, ct.Q, ct.R1, ct.T9}
 		obs := []model.ObsSpec{{Event: model.EvRemoveEntity}, {Event: model.EvRemoveComponents}, {Event: model.EvSetComponents}, {Event: model.EvCustom}, {Event: model.EvRemoveRelations}}
